@@ -1136,6 +1136,15 @@ REGRESSIONS = [
                                                             {"p": " bar", "b": 1, "at": "host"}],
         "kind": "cmd", "eof_nl": False, "prelook": False, "interleave": True, "one_by_one": False}),
     # hand-picked corners
+    # pinned known findings (host path only; these characters are excluded from generation)
+    Reg("host-formfeed-splits-line", "content", {
+        "lines": ["aa\x0cbb key", "zz"], "filters": [{"p": "key", "b": 10000, "at": "point"}], "kind": "file",
+        "eof_nl": True, "prelook": False, "interleave": False, "one_by_one": True, "outside_domain_ok": True},
+        expect="known", finding="C07-host-linebreak-chars"),
+    Reg("host-nul-binary-file-matches", "content", {
+        "lines": ["aa\x00bb key", "zz"], "filters": [{"p": "key", "b": 10000, "at": "point"}], "kind": "file",
+        "eof_nl": True, "prelook": False, "interleave": False, "one_by_one": True, "outside_domain_ok": True},
+        expect="known", finding="C07-host-nul-binary"),
     Reg("no-filter-not-collected", "content", {
         "lines": ["a", "b"], "filters": [{"p": "a", "b": 1, "at": "arch"}], "kind": "first_of", "eof_nl": True,
         "prelook": True, "interleave": False, "one_by_one": True}),
